@@ -210,6 +210,16 @@ fn check_gen(c: &GenCase, p: &mut Probe) -> Check {
                 args.push("--short".into());
             }
             let r = run_cli(&args, long)?;
+            // other spellings of the value one half ("1/2 ", "2/4", "0.5") are not the documented
+            // spelling, and the tool refuses them today; a tool that takes them for rate 1/2 and prints
+            // exactly that matrix does not break the property either
+            let half = matches!(rate.as_str(), "1/2 " | "2/4" | "0.5");
+            if half && r.code == Some(0) {
+                let want = if *short { ldpc_toolbox::codes::dvbs2::Code::R1_2short } else { ldpc_toolbox::codes::dvbs2::Code::R1_2 }.h().alist();
+                ensure!(r.stdout == want, "dvbs2-output", "dvbs2 --rate {rate:?} short={short}: accepted, but stdout is not the alist of the rate 1/2 matrix");
+                p.class("lenient-rate-spelling-accepted");
+                return Ok(());
+            }
             expect_failure(&r, &format!("dvbs2 --rate {rate:?} short={short}"))?;
             ensure!(r.stdout.is_empty(), "output-on-error", "dvbs2 --rate {rate:?}: wrote {} bytes to stdout although the rate is invalid", r.stdout.len());
         }
@@ -480,7 +490,7 @@ fn enc_strategy(_t: Tier) -> BoxedStrategy<EncCase> {
                 (prop_oneof![12 => proptest::collection::vec(proptest::collection::vec(0u8..=1, k), 0..=5), 1 => proptest::collection::vec(proptest::collection::vec(0u8..=1, k), 700..=3000)], 0..k),
                 prop_oneof![
                     12 => Just(EncFault::None),
-                    1 => prop_oneof![Just("1,2".to_string()), Just("a".to_string()), Just("1,,0".to_string()), Just("1,0,".to_string())].prop_map(EncFault::BadPattern),
+                    1 => prop_oneof![Just("1,2".to_string()), Just("a".to_string()), Just("".to_string()), Just(",".to_string()), Just("x,1".to_string()), Just("1;0".to_string()), Just("2".to_string())].prop_map(EncFault::BadPattern),
                     1 => Just(EncFault::MissingInput),
                     1 => Just(EncFault::MissingAlist),
                     1 => Just(EncFault::IndivisiblePattern),
